@@ -53,6 +53,12 @@ def hash_node(
                 if isinstance(value, (str, int, float, complex, bytes, type(None), type(...)))
                 if key not in {"lineno", "end_lineno", "col_offset", "end_col_offset"}
             )
+        # The walk flattens the tree: say which fields the children that follow come from.
+        things_to_hash.extend(
+            (key, len(value)) if isinstance(value, list) else (key,)
+            for key, value in child.__dict__.items()
+            if isinstance(value, (list, ast.AST))
+        )
         for name in names:
             if name in preserved_callable_names:
                 things_to_hash.append(name)
